@@ -121,6 +121,12 @@ pub fn curated() -> Vec<(&'static str, Spec, bool)> {
     add("skip_prefix", true, vec![s("ab"), t("abcd"), t("c"), t("e")]);
     add("skip_prefix2", true, vec![s("[0-9]+"), r("[0-9]+\\.[0-9]+"), t("."), r("[a-z]+")]);
     add("skip_prefix3", true, vec![s("--"), t("-->"), t("---x"), t("-"), r("[a-z>]")]);
+    // an end-anchored pattern extending a shorter token: after the shorter token has been recorded
+    // the only way forward is an end-of-input edge
+    add("eoi_extends", true, vec![t("a"), r("ab$")]);
+    add("eoi_extends2", true, vec![r("[0-9]+"), r("[0-9]+;$").prio(9), t(";")]);
+    add("eoi_extends3", true, vec![t("x"), r("xy(?m:$)"), t("\n"), t("y")]);
+    add("eoi_extends_skip", true, vec![s("#"), r("#!$").prio(9), t("!")]);
     // skips recognised by a late-accept state (the skip ends in a look-ahead assertion)
     add("skip_la_eol", true, vec![s("//[^\n]*(?m:$)").greedy(), r("[a-z]+"), t("\n"), t("/")]);
     add("skip_la_end", true, vec![s("#[a-z]*$"), r("[a-z]+"), t("#").prio(1)]);
